@@ -2,8 +2,8 @@ CONSTANTS
   Nbrs <- TriNodes
   Selfs <- NoSet
   Prefixes <- NoSet
-  Ifaces <- TriIfs
-  IfOf <- P2pIf
+  Ifaces <- LanIfs
+  IfOf <- LanIf
   Routers <- R3
   Stubs <- TriStubs
   Links <- TriLinks
@@ -15,16 +15,11 @@ CONSTANTS
   Phases <- Ph12
   Mtu = 1400
   Dts <- Dt1
-  MaxFails = 0
-  D = 0
+  MaxFails = 1
+  D = 100
   SlowFrom = "r3"
   SlowTo = "r2"
-SPECIFICATION Spec
-VIEW viewE
-INVARIANT TypeOK
-INVARIANT MetricsBounded
-INVARIANT NeverTooGood
-INVARIANT NextHopIsNeighbour
-INVARIANT OwnRouteStays
-PROPERTY Convergence
+INIT Init
+NEXT Next
+INVARIANT Export
 CHECK_DEADLOCK FALSE
